@@ -188,7 +188,9 @@ theorem startApp_mpool (cid : Nat) (blocked : List Nat) (a : App) (s : State) :
   · have h := bindAll_mpool cid a blocked a.listen s
     generalize bindAll cid a blocked a.listen s = r at h
     obtain ⟨s', b⟩ := r
-    cases b <;> exact h
+    cases b with
+    | true => dsimp only; split <;> exact h
+    | false => exact h
   · split
     · rfl
     · have h := bindAll_mpool cid a blocked a.listen (evA s [.start cid a.name])
